@@ -26,7 +26,7 @@ CHECKS = {
  "C11": dict(
   engine="inputs/load",
   category="exploration",
-  text="Eleven binding slots around one build statement (file-level before/after, redefinition, rule-level, build-block, path piece, child-file binding) are each left absent or filled with one of seven expressions that reference x, y, $in, $out in every direction; every assignment with a bounded number of filled slots is loaded with the statement in the main file, in an included file and in a subninja file, followed by a probe statement in the parent, and the evaluated command/description/paths are compared with an independent evaluator that implements the stated lookup chain literally. Exhaustive within the bound.",
+  text="Eleven binding slots around one build statement (the two variables are named `outd` and `inc`, which merely begin like the implicit $out/$in) (file-level before/after, redefinition, rule-level, build-block, path piece, child-file binding) are each left absent or filled with one of seven expressions that reference x, y, $in, $out in every direction; every assignment with a bounded number of filled slots is loaded with the statement in the main file, in an included file and in a subninja file, followed by a probe statement in the parent, and the evaluated command/description/paths are compared with an independent evaluator that implements the stated lookup chain literally. Exhaustive within the bound.",
   design_ref="DESIGN.md §4 C11",
   note="Trusted: eval_file/eval_path/eval_rule in refmanifest.rs. Bound: <=4 (quick) / <=5 (thorough) filled slots.",
   technique="bounded exhaustive input enumeration against a reference evaluator",
@@ -58,7 +58,7 @@ CHECKS = {
  "C20": dict(
   engine="inputs/render",
   category="exploration",
-  text="The render helpers of the fancy progress display are called for every terminal width 10..300, 15 elapsed times across every digit count, messages that place a 1/2/3/4-byte character at every offset around the cut index, every short string over {a,é,€,😀}, every alignment for truncate, every count vector up to a bound for progress_bar, and whole frames through the real print_progress at forced widths; and the shipped binary under a real pty (util-linux script) at 7 widths x 4 character sizes x 4 shifts, which must complete the build normally; the result must not panic, must stay within the width at a character boundary and the bar must have its nominal width (frames are painted from wide to narrow inside one process, i.e. across terminal resizes). Exhaustive within the bounds, which cover every residue of the byte arithmetic involved. The second half of the property (a rendering problem never aborts or alters the build) is decided on the thread protocol itself: loom explores every interleaving, up to a preemption bound, of the real FancyConsoleProgress display thread (Mutex + Condvar + timed wait, the timeout modelled as an event raised by a timer thread) against a main thread that plays every well-formed sequence of up to 3 (thorough 4) Progress calls followed by drop: no deadlock, no panic, every log line and finished-task block reaches the terminal exactly once and in order.",
+  text="The render helpers of the fancy progress display are called for every terminal width 10..300, 15 elapsed times across every digit count, messages that place a 1/2/3/4-byte character at every offset around the cut index, every short string over {a,é,€,😀}, every alignment for truncate, every count vector up to a bound for progress_bar, and whole frames through the real print_progress at forced widths; and the shipped binary under a real pty (util-linux script) at 7 widths x 4 character sizes x 4 shifts, and on a pty whose other side stops reading while a frame larger than the pty buffer is written (the display thread blocks in write for 0.6-1.5 s), which must complete the build normally; the result must not panic, must stay within the width at a character boundary and the bar must have its nominal width (frames are painted from wide to narrow inside one process, i.e. across terminal resizes). Exhaustive within the bounds, which cover every residue of the byte arithmetic involved. The second half of the property (a rendering problem never aborts or alters the build) is decided on the thread protocol itself: loom explores every interleaving, up to a preemption bound, of the real FancyConsoleProgress display thread (Mutex + Condvar + timed wait, the timeout modelled as an event raised by a timer thread) against a main thread that plays every well-formed sequence of up to 3 (thorough 4) Progress calls followed by drop: no deadlock, no panic, every log line and finished-task block reaches the terminal exactly once and in order.",
   design_ref="DESIGN.md §4 C20, §14",
   note="The loom job runs on a scratch copy of /repo's working tree in which `std` is shadowed inside progress_fancy.rs so that std::sync/std::thread paths resolve to loom's types (tools/loom_prepare.sh); wait_timeout_while is supplied as std implements it; sleep is a yield. Loom explores sequentially consistent interleavings only (the code uses Mutex/Condvar, no weaker atomics) and up to the stated preemption bound (2, thorough 3).",
   technique="bounded exhaustive input enumeration with invariant oracle; exhaustive thread-interleaving exploration (loom, preemption-bounded) of the real display thread protocol",
@@ -75,7 +75,7 @@ CHECKS = {
  "C04": dict(
   engine="sched",
   category="model_checking",
-  text="Same explorer as C01 on pool-centred scenario families: every assignment of {default, depth-1, depth-2, depth-0, console, undeclared} pools to 3 (thorough 4) steps over three shapes x -j x <=1 failing step, prebuilt pooled graphs under every edit vector with restat-like commands, regenerated manifests that change pool depths or add pools. At every command start the harness's own running set (from start/finish events, independent of n2's counters) must have at most -j members and at most depth members per bounded pool; n2's own running count seen at Runner::wait must equal it; a dirty step naming an undeclared pool must produce an `unknown pool` error and never start. Family PX puts more steps into one bounded pool than its depth next to default-pool steps competing for the -j slots (depth 1-2, -j up to depth+2, three declaration orders). The slot accounting of task::Runner itself (running, can_start_more, tids) is explored under all thread interleavings by the loom:runner job (2 tasks unbounded, 3 tasks with a preemption bound): started minus returned never exceeds the parallelism and always equals Runner.running, tids of simultaneously live tasks differ.",
+  text="Same explorer as C01 on pool-centred scenario families: every assignment of {default, depth-1, depth-2, depth-0, console, undeclared} pools to 3 (thorough 4) steps over three shapes x -j x <=1 failing step, prebuilt pooled graphs under every edit vector with restat-like commands, regenerated manifests that change pool depths or add pools. At every command start the harness's own running set (from start/finish events, independent of n2's counters) must have at most -j members and at most depth members per bounded pool; n2's own running count seen at Runner::wait must equal it; a dirty step naming an undeclared pool must produce an `unknown pool` error and never start. Family PXd adds a step whose command succeeds but leaves an unparsable depfile (a second way out of the Running state). Family PX puts more steps into one bounded pool than its depth next to default-pool steps competing for the -j slots (depth 1-2, -j up to depth+2, three declaration orders). The slot accounting of task::Runner itself (running, can_start_more, tids) is explored under all thread interleavings by the loom:runner job (2 tasks unbounded, 3 tasks with a preemption bound): the number of commands executing (inside run_command) never exceeds the parallelism, whatever way a slot is given back (success, failure, unparsable depfile), and the collector loop neither deadlocks nor ends with tasks unreturned.",
   design_ref="DESIGN.md §4 C04, §14",
   note="Same trusted base as C01. The loom job runs on a scratch copy of the working tree in which `std` is shadowed inside task.rs so that mpsc/thread resolve to loom's types.",
   technique="stateless exhaustive exploration of completion orders under a gated executor, invariant checked at every start; exhaustive thread-interleaving exploration (loom) of the real Runner",
@@ -116,7 +116,7 @@ CHECKS = {
  "C02": dict(
   engine="hist",
   category="model_checking",
-  text="Exhaustive walk of the history tree: on a real directory tree with the real loader, log and scheduler (commands scripted), every history of depth 2 (thorough 3) over 8 project templates alternates an edit set (every single edit: touch each source/header, delete or touch each output/intermediate, delete a header, delete a declared source, change what a compiler reports, swap the manifest for each variant / let a generator write each variant; thorough: also compatible pairs in round one) and an invocation (default build, each single target, every completion order at -j2, a build with each failing command and -k1, n2 killed after 1-2 completions with fresh garbage left in the running commands' outputs, restat). After every successful invocation every wanted step must be clean in the reference model (an independent implementation of the manifest rule on the harness's own file table) and every output must carry the content tag a from-scratch topological evaluation of the current sources gives; failures must be reported for missing declared sources. A conformance job (proc:conform) plays 83 two-invocation histories both under the scripted executor and through the shipped binary with real shell commands and requires identical run sets and exit status, binding the scripted executor to the real one.",
+  text="Exhaustive walk of the history tree: on a real directory tree with the real loader, log and scheduler (commands scripted), every history of depth 2 (thorough 3) over 8 project templates alternates an edit set (every single edit: touch each source/header, delete or touch each output/intermediate, delete a header, delete a declared source, change what a compiler reports, swap the manifest for each variant / let a generator write each variant; thorough: also compatible pairs in round one) and an invocation (default build, each single target, every completion order at -j2, a build with each failing command and -k1, n2 killed after 1-2 completions with fresh garbage left in the running commands' outputs, restat). After every successful invocation every wanted step must be clean in the reference model (an independent implementation of the manifest rule on the harness's own file table) and every output must carry the content tag a from-scratch topological evaluation of the current sources gives; failures must be reported for missing declared sources; after every invocation the log is audited through the loading facade: each step's remembered dependency list must be the one its last recorded run reported (also for every completion order of the all-orders invocation). Header sources live behind symbolic links. A conformance job (proc:conform) plays 83 two-invocation histories both under the scripted executor and through the shipped binary with real shell commands and requires identical run sets and exit status, binding the scripted executor to the real one.",
   design_ref="DESIGN.md §3.2, §3.7, §4 C02",
   note="Assumptions are those of the property (mtime changes with content: logical clock; nothing else writes during a build; no phony aliases as dirtying inputs). Scripted compilers fail when a header they include does not exist; a remembered dependency on a generated file without an ordering path is n2's documented error and accepted as such.",
   technique="exhaustive bounded history exploration of the real implementation against a reference model (clean-build oracle)",
